@@ -7,26 +7,26 @@ import struct
 from sa.astx import NotConst, call_attr, call_name, const_eval, dotted, src, statements
 from sa.selftest import Mutant, Silent
 from sa.source import AnalysisError, methods
-from sa.props._lib_h import const_is, flatten_add, lin, need, struct_fmt_norm
+from sa.props._lib_h import const_is
 
 PROPERTY = "C37"
 CM = "conch/ssh/common.py"
 KY = "conch/ssh/keys.py"
 QC = "twisted.conch.ssh.common."
 QK = "twisted.conch.ssh.keys.Key."
-TECHNIQUE = "writer/reader schema extraction and table agreement (struct formats, field order, key-type sets)"
+TECHNIQUE = "finite evaluation of interpreted NS/MP and Key round trips (stub cryptography) + input provenance"
 EXPLANATION = (
-    "Primitives: NS packs the length of exactly the bytes it appends; getNS/getMP unpack the same normalised struct format, slice header "
-    "and body at offsets that add up (c, c+4, c+4+len, advance 4+len) and return the rest; MP's zero case equals the packed zero length, its "
-    "sign-padding test is evaluated on all 256 leading bytes (pad iff >= 0x80, exactly one zero byte) and getMP reads unsigned big-endian. "
-    "Keys: for blob/_fromString_BLOB, privateBlob/_fromString_PRIVATE_BLOB, _toString_AGENTV3/_fromString_AGENTV3 and "
-    "_toString_LSH/_fromString_{PUBLIC,PRIVATE}_LSH the ordered field schema (kind NS/MP, count, component name) extracted from every "
-    "key-type branch of the writer equals the schema the reader's branch for the same wire type consumes; every type a writer can emit has a "
-    "reader branch; type tags agree with sshType(); every data[...] component exists in data() for that key class. Containers: the "
-    "openssh-key-v1 writer and reader agree on magic, cipher/KDF names, key size, rounds, field order and the check-word offsets; PEM kinds = "
-    "types the PEM writer accepts. Dispatch: every name _guessStringType returns and every _to*/_from* helper called exists; what the writers "
-    "emit (type tags, armour lines, braces, length-prefixed tags) is classified by _guessStringType as the matching parser. Not decided: "
-    "value-level equality of parsed keys, fingerprints, passphrase cryptography (cryptography library)."
+    "Primitives: NS, getNS, MP, getMP are evaluated by a whitelisted interpreter (no twisted code is run) on strings / text / integers up to "
+    "2^4096 (all sign-padding classes, zero, concatenated streams with a tail, counts) against RFC 4251 reference encoders and decoders, and "
+    "composed with each other. Keys: the source of Key is evaluated with stand-ins for the cryptography objects (numbers objects, SEC1 point "
+    "widths, 32-byte raw Ed25519 encodings, a PEM-like container, bcrypt / CTR stand-ins) over a pool of RSA, DSA, ECDSA (P-256/384/521) and "
+    "Ed25519 keys chosen to hit sign padding, coordinates with leading zero bytes and encodings ending in ASCII whitespace; every key is "
+    "serialised through every format that supports its type - public blob (guessed and explicit), OpenSSH public line (with / without comment), "
+    "LSH public and private, agent v3, private blob, OpenSSH PEM and v1 (with / without passphrase (bytes and str), with comment) - parsed back "
+    "with fromString and compared on type, public/private, every component and the public blob (hence the fingerprint). Structurally: no "
+    "minimal-length integer encoding sits unframed inside a concatenated NS payload, and between Key.fromString's parameter and a binary-format "
+    "parser nothing trims / slices the data unless the format is known to be textual. Not decided: the real cryptography (key validity, "
+    "fingerprint hash functions, bcrypt, PEM as written by OpenSSL)."
 )
 ASSUMPTIONS = [
     "cryptography's int_to_bytes yields minimal big-endian bytes; load_pem_private_key / private_bytes are inverse (library contract)",
@@ -47,10 +47,34 @@ def _c(node, env=None):
         return None
 
 
-def _slice(e):
-    if isinstance(e, ast.Subscript) and isinstance(e.slice, ast.Slice) and e.slice.step is None:
-        return e.value, e.slice.lower, e.slice.upper
-    return None
+
+
+def _single_def(scope, e, depth=0):
+    """a local bound exactly once (inside ``scope``, a list of statements or a function) stands for what it was bound to"""
+    while isinstance(e, ast.Name) and depth < 4:
+        root = scope if isinstance(scope, ast.AST) else ast.Module(body=list(scope), type_ignores=[])
+        stores = [x for x in ast.walk(root) if isinstance(x, ast.Name) and x.id == e.id and isinstance(x.ctx, ast.Store)]
+        vals = [st.value for st in ast.walk(root) if isinstance(st, ast.Assign) and len(st.targets) == 1 and isinstance(st.targets[0], ast.Name) and st.targets[0].id == e.id]
+        if len(stores) != 1 or len(vals) != 1:
+            break
+        e = vals[0]
+        depth += 1
+    return e
+
+
+def _concat_operands(scope, e):
+    """operands of a byte concatenation written as a + b + c, b"".join([a, b, c]) or through a named temporary"""
+    e = _single_def(scope, e)
+    if isinstance(e, ast.Call) and call_attr(e) == "join" and len(e.args) == 1 and isinstance(e.func, ast.Attribute) and _c(e.func.value) == b"":
+        lst = _single_def(scope, e.args[0])
+        if isinstance(lst, (ast.List, ast.Tuple)):
+            out = []
+            for x in lst.elts:
+                out += _concat_operands(scope, x)
+            return out
+    if isinstance(e, ast.BinOp) and isinstance(e.op, ast.Add):
+        return _concat_operands(scope, e.left) + _concat_operands(scope, e.right)
+    return [e]
 
 
 def _ordered_calls(node, names):
@@ -60,129 +84,42 @@ def _ordered_calls(node, names):
 
 # ---- writer / reader schema extraction ------------------------------------------------------
 
-def type_branches(func, style):
-    """{key: [stmts]} for the if/elif chain of a function.  style 'writer': tests  type == "RSA" / self.type() == "RSA";
-    style 'reader': tests  keyType == b"..." / keyType in _curveTable / keyType in [b"..", ..]."""
-    out = {}
-
-    def key_of(test):
-        if isinstance(test, ast.Compare) and len(test.ops) == 1:
-            l, r, op = test.left, test.comparators[0], test.ops[0]
-            if isinstance(l, ast.Constant) and isinstance(op, ast.Eq) and not isinstance(r, ast.Constant):
-                l, r = r, l
-            if style == "writer" and isinstance(op, ast.Eq) and isinstance(r, ast.Constant) and isinstance(r.value, str) \
-                    and (src(l) in ("type", "self.type()", "keyType")):
-                return [r.value]
-            if style == "reader" and isinstance(l, ast.Name):
-                if isinstance(op, ast.Eq) and isinstance(r, ast.Constant) and isinstance(r.value, bytes):
-                    return [r.value]
-                if isinstance(op, ast.In) and src(r) == "_curveTable":
-                    return ["<curve>"]
-                if isinstance(op, ast.In) and isinstance(r, (ast.List, ast.Tuple)) and all(isinstance(e, ast.Constant) for e in r.elts):
-                    return [e.value for e in r.elts]
-        return None
-
-    def visit(stmts_):
-        for st in stmts_:
-            if isinstance(st, ast.If):
-                ks = key_of(st.test)
-                if ks is not None:
-                    for k in ks:
-                        out.setdefault(k, st.body)
-                    visit(st.orelse)
-                else:
-                    visit(st.body)
-                    visit(st.orelse)
-    visit(func.body)
-    return out
 
 
-def writer_schema(body):
-    """[(kind, name)] of the NS/MP calls concatenated in the first Return / `values = (...)` of a branch."""
-    for st in body:
-        tgt = None
-        if isinstance(st, ast.Return) and st.value is not None:
-            tgt = st.value
-        elif isinstance(st, ast.Assign) and isinstance(st.value, ast.Tuple) and any(isinstance(t, ast.Name) and t.id == "values" for t in st.targets):
-            return [("MP", _wname(e)) for e in st.value.elts]
-        if tgt is not None:
-            ops = flatten_add(tgt)
-            out = []
-            for o in ops:
-                if isinstance(o, ast.Call) and call_attr(o) in ("NS", "MP") and len(o.args) == 1:
-                    out.append((call_attr(o), _wname(o.args[0])))
-                else:
-                    return None
-            return out
-    return None
 
 
-def _wname(a):
-    if isinstance(a, ast.Subscript) and src(a.value) == "data" and isinstance(a.slice, ast.Constant):
-        return "data:" + a.slice.value
-    if isinstance(a, ast.Constant):
-        return a.value
-    return src(a)
 
 
-def reader_schema(body):
-    """[(kind, name or None)] consumed by the getNS/getMP calls of a branch, in source order."""
+def reader_schema(body, km=None, depth=0):
+    """[(kind, name or None)] consumed by the getNS/getMP calls of a branch, in source order; calls of private helpers of the class
+    (cls._x(rest) / self._x(rest)) contribute the fields their body consumes."""
     out = []
     wrapper = ast.Module(body=list(body), type_ignores=[])
-    for c in _ordered_calls(wrapper, ("getNS", "getMP")):
-        kind = "NS" if call_attr(c) == "getNS" else "MP"
-        n = _c(c.args[1]) if len(c.args) > 1 else 1
-        if not isinstance(n, int):
-            return None
-        par = getattr(c, "_parent", None)
-        names = [None] * n
-        if isinstance(par, ast.Assign) and par.value is c and isinstance(par.targets[0], (ast.Tuple, ast.List)):
-            tg = [src(e) for e in par.targets[0].elts]
-            if len(tg) == n + 1:
-                names = tg[:-1]
-        out += [(kind, nm) for nm in names]
+    calls = [c for c in ast.walk(wrapper) if isinstance(c, ast.Call)]
+    for c in sorted(calls, key=lambda c: (c.lineno, c.col_offset)):
+        if call_attr(c) in ("getNS", "getMP"):
+            kind = "NS" if call_attr(c) == "getNS" else "MP"
+            n = _c(c.args[1]) if len(c.args) > 1 else 1
+            if not isinstance(n, int):
+                return None
+            par = getattr(c, "_parent", None)
+            names = [None] * n
+            if isinstance(par, ast.Assign) and par.value is c and isinstance(par.targets[0], (ast.Tuple, ast.List)):
+                tg = [src(e) for e in par.targets[0].elts]
+                if len(tg) == n + 1:
+                    names = tg[:-1]
+            out += [(kind, nm) for nm in names]
+        elif km is not None and depth < 2 and isinstance(c.func, ast.Attribute) and isinstance(c.func.value, ast.Name) and c.func.value.id in ("cls", "self") \
+                and c.func.attr.startswith("_") and c.func.attr in km and not c.func.attr.startswith(("_from", "_to")):
+            sub = reader_schema(km[c.func.attr].body, km, depth + 1)
+            if sub is None:
+                return None
+            out += sub
     return out
 
 
-def lsh_writer(func):
-    """{(visibility, type name): [field names]} from the nested list literals handed to sexpy.pack."""
-    out = {}
-    for c in ast.walk(func):
-        if isinstance(c, ast.Call) and call_name(c) == "sexpy.pack" and c.args and isinstance(c.args[0], ast.List):
-            try:
-                top = c.args[0].elts[0]
-                head = _c(top.elts[0])
-                inner = top.elts[1]
-                tname = _c(inner.elts[0])
-                fields = []
-                for fl in inner.elts[1:]:
-                    fields.append((_c(fl.elts[0]), fl.elts[1]))
-                out[(head, tname)] = fields
-            except (AttributeError, IndexError):
-                raise AnalysisError("C37: sexpy.pack literal shape not recognised")
-    return out
 
 
-def lsh_reader(func):
-    """(head literal asserted, {type name: (set of kd[...] keys used, asserted len or None)})"""
-    head = None
-    types = {}
-    for st in ast.walk(func):
-        if isinstance(st, ast.Assert) and isinstance(st.test, ast.Compare) and src(st.test.left) == "sexp[0]":
-            head = _c(st.test.comparators[0])
-    for st in ast.walk(func):
-        if isinstance(st, ast.If) and isinstance(st.test, ast.Compare) and src(st.test.left) == "sexp[1][0]" and isinstance(st.test.ops[0], ast.Eq):
-            tn = _c(st.test.comparators[0])
-            used = set()
-            n = None
-            for x in st.body:
-                for y in ast.walk(x):
-                    if isinstance(y, ast.Subscript) and src(y.value) == "kd" and isinstance(y.slice, ast.Constant):
-                        used.add(y.slice.value)
-                    if isinstance(y, ast.Assert) and isinstance(y.test, ast.Compare) and src(y.test.left) == "len(kd)":
-                        n = _c(y.test.comparators[0])
-            types[tn] = (used, n)
-    return head, types
 
 
 def eval_startswith(test, data: bytes):
@@ -218,397 +155,202 @@ def guess(func, data: bytes):
 
 
 def check(ctx):
-    _ok_pr = False; _ok_ky = False; _ok_dc = False; _ok_lw = False; _ok_v1 = False; _ok_pem = False; _ok_gs = False; curve_keys = []
-    with ctx.section('primitives/anchors'):
-        fns = {n: ctx.func(CM, n) for n in ("NS", "getNS", "MP", "getMP")}
-        fmts = {}
-        _ok_pr = True
-    for name in ("NS", "MP"):
-        with ctx.section(f"primitives/writer/{name}"):
-            ctx.need(_ok_pr, 'anchors of primitives (section skipped)')
-            f = fns[name]
-            q = QC + name
-            rets = [st for st in statements(f) if isinstance(st, ast.Return) and st.value is not None]
-            main = [r for r in rets if any(isinstance(c, ast.Call) and call_name(c) in ("struct.pack", "pack") for c in ast.walk(r.value))]
-            ctx.need(main, f"{name}: return struct.pack(...) + bytes")
-            ops = flatten_add(main[0].value)
-            ok = len(ops) == 2 and isinstance(ops[0], ast.Call) and len(ops[0].args) == 2 and isinstance(ops[1], ast.Name) \
-                and src(ops[0].args[1]) == f"len({ops[1].id})"
-            ctx.check(ok, "primitive/length-of-what-is-appended", ctx.construct(q, main[0]),
-                      f"{name} does not emit pack(fmt, len(x)) + x for one and the same x: the length prefix can differ from the bytes that follow")
-            if ok:
-                fmts[name] = _c(ops[0].args[0])
-                ctx.check(struct_fmt_norm(fmts[name]) == ("big", "L"), "primitive/length-format", q, f"length prefix format {fmts[name]!r} is not a big-endian uint32 (RFC 4251 5)")
-                # every rebinding of x happens before the return: trivially true for straight-line code; check no rebinding of x after len() is not needed
-    with ctx.section('primitives/NS-encodes-first'):
-        ctx.need(_ok_pr, 'anchors of primitives (section skipped)')
-        f = fns["NS"]
-        tp = f.args.args[0].arg
-        enc = [st for st in statements(f) if isinstance(st, ast.Assign) and any(isinstance(t, ast.Name) and t.id == tp for t in st.targets)]
-        for st in enc:
-            ctx.check(isinstance(st.value, ast.Call) and call_attr(st.value) == "encode" and src(st.value.func.value) == tp, "primitive/length-of-what-is-appended",
-                      ctx.construct(QC + "NS", st), "NS rebinds its argument to something other than its encoding")
-    for name, wname in (("getNS", "NS"), ("getMP", "MP")):
-        with ctx.section(f"primitives/reader/{name}"):
-            ctx.need(_ok_pr, 'anchors of primitives (section skipped)')
-            f = fns[name]
-            q = QC + name
-            sp_, cp = f.args.args[0].arg, f.args.args[1].arg
-            ups = [c for c in ast.walk(f) if isinstance(c, ast.Call) and call_name(c) in ("struct.unpack", "unpack")]
-            ctx.need(len(ups) == 1 and len(ups[0].args) == 2, f"{name}: one struct.unpack")
-            rf = _c(ups[0].args[0])
-            W = struct.calcsize(rf) if isinstance(rf, str) else None
-            ctx.check(isinstance(rf, str) and wname in fmts and struct_fmt_norm(rf) == struct_fmt_norm(fmts[wname]), "primitive/format-agreement", q,
-                      f"{name} unpacks {rf!r} but {wname} packs {fmts.get(wname)!r}")
-            ust = ups[0]._parent
-            ctx.need(isinstance(ust, ast.Assign) and isinstance(ust.targets[0], ast.Tuple) and len(ust.targets[0].elts) == 1, f"{name}: (l,) = unpack")
-            lv = src(ust.targets[0].elts[0])
-            hs = _slice(ups[0].args[1])
-            cvs = [st.targets[0].id for st in f.body if isinstance(st, ast.Assign) and const_is(st.value, 0) and isinstance(st.targets[0], ast.Name)]
-            ctx.need(cvs and hs is not None, f"{name}: cursor and header slice")
-            cv = cvs[0]
-            ok = src(hs[0]) == sp_ and hs[1] is not None and hs[2] is not None and lin(hs[1]) == (frozenset({(cv, 1)}), 0) and lin(hs[2]) == (frozenset({(cv, 1)}), W)
-            ctx.check(ok, "primitive/offsets", ctx.construct(q, ust), f"the length prefix is not read from {sp_}[{cv}:{cv}+{W}]")
-            # body slice: the other slice of the source inside the loop
-            loops = [st for st in f.body if isinstance(st, ast.For)]
-            ctx.need(loops, f"{name}: for loop")
-            ctx.check(src(loops[0].iter) == f"range({cp})", "primitive/offsets", q + " | count", f"{name} does not iterate range({cp})")
-            bodies = [x for x in ast.walk(loops[0]) if _slice(x) and src(_slice(x)[0]) == sp_ and x is not ups[0].args[1]]
-            okb = len(bodies) == 1 and _slice(bodies[0])[1] is not None and _slice(bodies[0])[2] is not None \
-                and lin(_slice(bodies[0])[1]) == (frozenset({(cv, 1)}), W) and lin(_slice(bodies[0])[2]) == (frozenset({(cv, 1), (lv, 1)}), W)
-            ctx.check(okb, "primitive/offsets", q + " | body", f"the value is not {sp_}[{cv}+{W}:{cv}+{W}+{lv}]: bytes are skipped or shared between consecutive values")
-            adv = [st for st in ast.walk(loops[0]) if isinstance(st, ast.AugAssign) and isinstance(st.target, ast.Name) and st.target.id == cv]
-            oka = len(adv) == 1 and isinstance(adv[0].op, ast.Add) and lin(adv[0].value) == (frozenset({(lv, 1)}), W)
-            ctx.check(oka, "primitive/offsets", q + " | advance", f"the cursor does not advance by {W} + {lv}")
-            ret = [st for st in f.body if isinstance(st, ast.Return)]
-            okr = False
-            if ret:
-                ops = flatten_add(ret[0].value)
-                okr = len(ops) == 2 and isinstance(ops[0], ast.Call) and dotted(ops[0].func) == "tuple" and isinstance(ops[1], ast.Tuple) and len(ops[1].elts) == 1 \
-                    and _slice(ops[1].elts[0]) and src(_slice(ops[1].elts[0])[0]) == sp_ and src(_slice(ops[1].elts[0])[1]) == cv and _slice(ops[1].elts[0])[2] is None
-                acc = ops[0].args[0].id if okr and isinstance(ops[0].args[0], ast.Name) else None
-                apps = [c for c in ast.walk(loops[0]) if isinstance(c, ast.Call) and call_name(c) == f"{acc}.append"]
-                okr = okr and len(apps) == 1
-            ctx.check(okr, "primitive/rest-returned", q, f"{name} does not return the values in order followed by the unread rest {sp_}[{cv}:]")
-            if name == "getMP":
-                fb = [c for c in ast.walk(f) if isinstance(c, ast.Call) and call_name(c) == "int.from_bytes"]
-                ctx.check(len(fb) == 1 and len(fb[0].args) == 2 and const_is(fb[0].args[1], "big") and not any(k.arg == "signed" and not const_is(k.value, False) for k in fb[0].keywords)
-                          and fb[0].args[0] is bodies[0] if okb else False, "primitive/mp-unsigned-big-endian", q, "getMP does not read the body as an unsigned big-endian integer")
-    with ctx.section('primitives/MP-details'):
-        ctx.need(_ok_pr, 'anchors of primitives (section skipped)')
-        f = fns["MP"]
-        q = QC + "MP"
-        np_ = f.args.args[0].arg
-        zero = [st for st in f.body if isinstance(st, ast.If) and isinstance(st.test, ast.Compare) and src(st.test) == f"{np_} == 0"]
-        okz = bool(zero) and isinstance(zero[0].body[0], ast.Return) and "MP" in fmts and _c(zero[0].body[0].value) == struct.pack(fmts["MP"], 0)
-        ctx.check(okz, "primitive/mp-zero", q, "MP(0) is not the packed zero length (an empty mpint)")
-        pad = [st for st in f.body if isinstance(st, ast.If) and st not in zero]
-        ctx.need(pad, "MP: sign padding if")
-        bnv = [t.id for st in f.body if isinstance(st, ast.Assign) and isinstance(st.value, ast.Call) and call_attr(st.value) == "int_to_bytes" for t in st.targets if isinstance(t, ast.Name)]
-        ctx.need(bnv, "MP: bn = int_to_bytes(number)")
-        bn = bnv[0]
-        wrong = []
-        for v in range(256):
-            try:
-                got = bool(const_eval(pad[0].test, {bn: bytes((v, 1))}))
-            except NotConst as e:
-                need(ctx, False, f"MP padding test not evaluable ({e})")
-            if got != (v >= 128):
-                wrong.append(v)
-        ctx.check(not wrong, "primitive/mp-sign-padding", ctx.construct(q, pad[0].test),
-                  f"a zero byte is prepended iff the leading byte is >= 0x80 fails for leading bytes {wrong[:4]}: such values decode as negative (other SSH "
-                  "implementations) or carry a non-minimal encoding")
-        st = pad[0].body[0]
-        okp = isinstance(st, ast.Assign) and src(st.targets[0]) == bn and len(flatten_add(st.value)) == 2 and _c(flatten_add(st.value)[0]) == b"\0" and src(flatten_add(st.value)[1]) == bn
-        ctx.check(okp, "primitive/mp-sign-padding", ctx.construct(q, st), "the sign padding is not exactly one leading zero byte")
-
-    with ctx.section('keys/anchors'):
-        ky = ctx.mod(KY)
-        kcls = ctx.cls(KY, "Key")
-        km = methods(kcls)
-        _ok_ky = True
-    with ctx.section('keys/type-tags'):
-        ctx.need(_ok_ky, 'anchors of keys (section skipped)')
-        st_f = ctx.func(KY, "Key.sshType")
-        dicts = [d for d in ast.walk(st_f) if isinstance(d, ast.Dict)]
-        ctx.need(dicts, "sshType: literal table")
-        table = {_c(k): _c(v) for k, v in zip(dicts[0].keys, dicts[0].values)}
-        for t, w in WIRE.items():
-            if t != "EC":
-                ctx.check(table.get(t) == w, "keys/type-tags", f"{QK}sshType | {t}", f"sshType maps {t} to {table.get(t)!r}; RFC 4253/8709 name is {w!r}")
-        curve_keys = []
-        ct = ky.module_assign("_curveTable")
-        s2n = ky.module_assign("_secToNist")
-        ctx.need(isinstance(ct, ast.Dict) and isinstance(s2n, ast.Dict), "_curveTable / _secToNist")
-        curve_keys = [_c(k) for k in ct.keys]
-        nist = [_c(v) for v in s2n.values]
-        ctx.check(sorted(curve_keys) == sorted(b"ecdsa-sha2-" + n for n in nist), "keys/type-tags", "twisted.conch.ssh.keys._curveTable ~ _secToNist",
-                  f"curve table keys {curve_keys} are not 'ecdsa-sha2-' + the NIST names {nist}: sshType() of an EC key is not a key of _curveTable and cannot be parsed back")
-    with ctx.section('keys/data-components'):
-        ctx.need(_ok_ky, 'anchors of keys (section skipped)')
-        data_f = ctx.func(KY, "Key.data")
-        comps = {}
-        for st in ast.walk(data_f):
-            if isinstance(st, ast.If) and isinstance(st.test, ast.Call) and dotted(st.test.func) == "isinstance" and isinstance(st.test.args[1], ast.Attribute):
-                cls_ = st.test.args[1].attr
-                for r in st.body:
-                    if isinstance(r, ast.Return) and isinstance(r.value, ast.Dict) and cls_ in DATA_CLASS:
-                        comps[DATA_CLASS[cls_]] = {_c(k) for k in r.value.keys}
-        ctx.floor("keys/data-components", len(comps), 8, "data() branches")
-
-        def check_components(q, t, vis, schema):
-            have = comps.get((t, vis), set())
-            for kind, nm in schema:
-                if isinstance(nm, str) and nm.startswith("data:"):
-                    ctx.check(nm[5:] in have, "keys/data-components", f"{q} | {t} {nm[5:]}",
-                              f"the {vis} {t} serialiser reads data()[{nm[5:]!r}] which data() does not provide for that key class (KeyError)")
-
-        pairs = [("blob", "_fromString_BLOB", "public", 1), ("privateBlob", "_fromString_PRIVATE_BLOB", "private", 1), ("_toString_AGENTV3", "_fromString_AGENTV3", "private", 0)]
-        n_schema_box = [0]
-        _ok_dc = True
-    for wn, rn, vis, skip in pairs:
-        with ctx.section(f"keys/schema/{wn}"):
-            ctx.need(_ok_dc, 'anchors of keys (section skipped)')
-            wf, rf_ = ctx.func(KY, f"Key.{wn}"), ctx.func(KY, f"Key.{rn}")
-            qw, qr = QK + wn, QK + rn
-            wb = type_branches(wf, "writer")
-            rb = type_branches(rf_, "reader")
-            ctx.need(wb and rb, f"type dispatch of {wn} / {rn}")
-            for t in sorted(wb):
-                ws = writer_schema(wb[t])
-                need(ctx, ws is not None, f"{wn}[{t}] schema")
-                tag = WIRE.get(t)
-                if not ctx.check(tag is not None, "keys/writer-types", f"{qw} | {t}", f"{wn} has a branch for an unknown key class {t!r}"):
-                    continue
-                if skip:
-                    first = ws[0]
-                    oktag = first[0] == "NS" and (first[1] == tag if t != "EC" else first[1] == "data:curve")
-                    ctx.check(oktag, "keys/type-tags", f"{qw} | {t} tag", f"the {t} {wn} does not start with NS({tag!r}); it starts with {first!r}")
-                check_components(qw, t, vis, ws)
-                if not ctx.check(tag in rb, "keys/every-written-type-is-readable", f"{qr} | {t}",
-                                 f"{wn} can serialise a {t} key but {rn} has no branch for wire type {tag!r}: the key does not parse back"):
-                    continue
-                rs = reader_schema(rb[tag])
-                need(ctx, rs is not None, f"{rn}[{tag}] schema")
-                wfields = ws[skip:]
-                n_schema_box[0] += 1
-                ctx.check([k for k, _ in wfields] == [k for k, _ in rs], "keys/field-schema", f"{qw} ~ {rn} | {t}",
-                          f"{wn} writes {[k for k, _ in wfields]} for {t} but {rn} reads {[k for k, _ in rs]}: fields are mis-aligned")
-                if [k for k, _ in wfields] == [k for k, _ in rs]:
-                    for i, ((k, wnm), (_, rnm)) in enumerate(zip(wfields, rs)):
-                        if k == "MP" and isinstance(wnm, str) and wnm.startswith("data:") and rnm is not None:
-                            ctx.check(wnm[5:] == rnm, "keys/field-order", f"{qw} ~ {rn} | {t} field {i}",
-                                      f"field {i} of a {t} key is written from component {wnm[5:]!r} but read as {rnm!r}: components are swapped")
-            # reader feeds the right constructor arguments (name = same name)
-            for tag, body in rb.items():
-                for c in ast.walk(ast.Module(body=list(body), type_ignores=[])):
-                    if isinstance(c, ast.Call) and call_attr(c) in ("_fromRSAComponents", "_fromDSAComponents"):
-                        for kw in c.keywords:
-                            if isinstance(kw.value, ast.Name):
-                                ctx.check(kw.arg == kw.value.id, "keys/field-order", f"{qr} | {tag!r} {kw.arg}=",
-                                          f"{rn} passes the value read as {kw.value.id!r} as component {kw.arg!r}")
-    with ctx.section('keys/schema-floor'):
-        ctx.floor("keys/field-schema", n_schema_box[0], 9, "type branches compared")
-    with ctx.section('keys/ec-point'):
-        ctx.need(_ok_ky, 'anchors of keys (section skipped)')
-        rb = type_branches(km["_fromString_BLOB"], "reader")
-        ecb = rb.get("<curve>", [])
-        subs = [x for x in ast.walk(ast.Module(body=list(ecb), type_ignores=[])) if isinstance(x, ast.Subscript) and isinstance(x.value, ast.Call) and call_attr(x.value) == "getNS"]
-        ctx.check(len(subs) == 1 and _c(subs[0].slice) == 1 and _c(subs[0].value.args[1]) == 2, "keys/field-schema", QK + "_fromString_BLOB | EC point",
-                  "the EC point is not taken from the second of the two strings following the type tag")
-    with ctx.section('keys/ed25519-private'):
-        ctx.need(_ok_ky, 'anchors of keys (section skipped)')
-        rb = type_branches(km["_fromString_PRIVATE_BLOB"], "reader")
-        edb = rb.get(b"ssh-ed25519", [])
-        ks = [st for st in edb if isinstance(st, ast.Assign) and _slice(st.value) and _slice(st.value)[1] is None]
-        ctx.check(len(ks) == 1 and _c(_slice(ks[0].value)[2]) == 32, "keys/field-schema", QK + "_fromString_PRIVATE_BLOB | Ed25519 k",
-                  "the Ed25519 private scalar is not the first 32 bytes of the 'k || a' string")
-        wb = type_branches(km["privateBlob"], "writer")
-        wsed = writer_schema(wb.get("Ed25519", []))
-        ctx.check(wsed is not None and wsed[-1] == ("NS", "data['k'] + data['a']"), "keys/field-schema", QK + "privateBlob | Ed25519 k||a", "Ed25519 private blob does not end with NS(k || a)")
-
-    with ctx.section('keys/lsh-writer'):
-        ctx.need(_ok_ky, 'anchors of keys (section skipped)')
-        lw = lsh_writer(ctx.func(KY, "Key._toString_LSH"))
-        ctx.floor("keys/lsh", len(lw), 4, "sexpy.pack literals")
-        _ok_lw = True
-    for rn, head in (("_fromString_PUBLIC_LSH", b"public-key"), ("_fromString_PRIVATE_LSH", b"private-key")):
-        with ctx.section(f"keys/lsh/{rn}"):
-            ctx.need(_ok_lw, 'anchors of keys (section skipped)')
-            rh, rt = lsh_reader(ctx.func(KY, f"Key.{rn}"))
-            qr = QK + rn
-            ctx.check(rh == head, "keys/lsh", qr + " | head", f"{rn} asserts head {rh!r}, expected {head!r}")
-            written = {tn: fl for (h, tn), fl in lw.items() if h == head}
-            ctx.check(bool(written), "keys/lsh", QK + f"_toString_LSH | {head!r}", f"_toString_LSH never writes a {head!r} expression")
-            for tn, fl in sorted(written.items()):
-                names = [n for n, v in fl]
-                if not ctx.check(tn in rt, "keys/every-written-type-is-readable", f"{qr} | {tn!r}",
-                                 f"_toString_LSH writes key type {tn!r} under {head!r} but {rn} has no branch for it"):
-                    continue
-                used, n = rt[tn]
-                ctx.check(used <= set(names), "keys/lsh", f"{qr} | {tn!r} fields", f"{rn} needs fields {sorted(used - set(names))} that _toString_LSH does not write for {tn!r}")
-                ctx.check(n is None or n == len(names), "keys/lsh", f"{qr} | {tn!r} count", f"{rn} asserts {n} fields for {tn!r}; _toString_LSH writes {len(names)}")
-                for nm, v in fl:
-                    sl = _slice(v)
-                    ctx.check(sl is not None and isinstance(sl[0], ast.Call) and call_attr(sl[0]) == "MP" and _c(sl[1]) == 4 and sl[2] is None, "keys/lsh",
-                              f"{QK}_toString_LSH | {head!r} {tn!r} {nm!r}", "an LSH number is not MP(x)[4:] (mpint body without its length prefix, re-prefixed by the reader)")
-
-    with ctx.section('v1/anchors'):
-        ctx.need(_ok_ky, 'anchors of v1 (section skipped)')
-        wv, rv = ctx.func(KY, "Key._toPrivateOpenSSH_v1"), ctx.func(KY, "Key._fromPrivateOpenSSH_v1")
-        qw, qr = QK + "_toPrivateOpenSSH_v1", QK + "_fromPrivateOpenSSH_v1"
-
-        def consts_assigned(f, name):
-            return [_c(st.value) for st in ast.walk(f) if isinstance(st, ast.Assign) and any(isinstance(t, ast.Name) and t.id == name for t in st.targets)]
-        _ok_v1 = True
-    with ctx.section('v1/names-and-sizes'):
-        ctx.need(_ok_v1, 'anchors of v1 (section skipped)')
-        wmag = [c.value for c in ast.walk(wv) if isinstance(c, ast.Constant) and isinstance(c.value, bytes) and c.value.startswith(b"openssh-key")]
-        rmag = [c.value for c in ast.walk(rv) if isinstance(c, ast.Constant) and isinstance(c.value, bytes) and c.value.startswith(b"openssh-key")]
-        ctx.check(len(set(wmag)) == 1 and set(rmag) == set(wmag) and len(rmag) >= 2, "container/v1-magic", qw + " ~ _fromPrivateOpenSSH_v1",
-                  f"magic written {wmag} vs checked/stripped {rmag}")
-        wc = [c for c in consts_assigned(wv, "cipherName") if c and c != b"none"]
-        rc = set()
-        for t in ast.walk(rv):
-            if isinstance(t, ast.Compare) and src(t.left) == "cipher" and isinstance(t.ops[0], ast.In):
-                rc |= set(_c(t.comparators[0]) or ())
-        for c in wc:
-            ctx.check(c in rc, "container/v1-cipher", f"{qw} | {c!r}", f"private keys are encrypted with {c!r} but the reader only accepts {sorted(rc)}")
-            # key size: reader derives it from the name
-            ks_r = [st.value for st in ast.walk(rv) if isinstance(st, ast.Assign) and src(st.targets[0]) == "keySize"]
-            ks_w = [x for x in consts_assigned(wv, "keySize") if isinstance(x, int)]
-            ok = bool(ks_r) and bool(ks_w) and _c(ks_r[0], {"cipher": c}) == ks_w[0]
-            ctx.check(ok, "container/v1-cipher", f"{qw} | {c!r} key size", f"writer uses a {ks_w} byte key, reader derives {_c(ks_r[0], {'cipher': c}) if ks_r else None} from the cipher name")
-        ctx.floor("container/v1-cipher", len(wc), 1)
-        wk = [c for c in consts_assigned(wv, "kdfName") if c and c != b"none"]
-        rk = {_c(t.comparators[0]) for t in ast.walk(rv) if isinstance(t, ast.Compare) and src(t.left) == "kdf" and isinstance(t.ops[0], ast.Eq)}
-        for k in wk:
-            ctx.check(k in rk, "container/v1-kdf", f"{qw} | {k!r}", f"KDF {k!r} is written but the reader only knows {sorted(x for x in rk if x)}")
-        rounds_w = [x for x in consts_assigned(wv, "rounds") if isinstance(x, int)]
-        kdfc = [c for c in ast.walk(wv) if isinstance(c, ast.Call) and call_name(c) == "bcrypt.kdf"]
-        okr = len(kdfc) == 1 and len(kdfc[0].args) >= 4 and bool(rounds_w) and (_c(kdfc[0].args[3]) == rounds_w[0] or src(kdfc[0].args[3]) == "rounds")
-        ctx.check(okr, "container/v1-kdf", qw + " | rounds", "the number of bcrypt rounds recorded in the file differs from the number used to derive the key")
-        for f_, q_ in ((wv, qw), (rv, qr)):
-            kc = [c for c in ast.walk(f_) if isinstance(c, ast.Call) and call_name(c) == "bcrypt.kdf"]
-            ok = len(kc) == 1 and src(kc[0].args[2]) == "keySize + ivSize"
-            cip = [c for c in ast.walk(f_) if isinstance(c, ast.Call) and call_name(c) == "Cipher"]
-            ok = ok and len(cip) == 1 and "[:keySize]" in src(cip[0].args[0]) and "[keySize:keySize + ivSize]" in src(cip[0].args[1]) and "modes.CTR" in src(cip[0].args[1])
-            ctx.check(ok, "container/v1-cipher", q_ + " | key/iv split", "key and IV are not derived as kdf(..)[:keySize] and [keySize:keySize+ivSize] in CTR mode")
-    with ctx.section('v1/field-order'):
-        ctx.need(_ok_v1, 'anchors of v1 (section skipped)')
-        blob_st = [st for st in wv.body if isinstance(st, ast.Assign) and src(st.targets[0]) == "blob"]
-        ctx.need(blob_st, "_toPrivateOpenSSH_v1: blob = ...")
-        wseq = []
-        for o in flatten_add(blob_st[0].value):
-            if isinstance(o, ast.Call) and call_attr(o) == "NS":
-                wseq.append("NS")
-            elif isinstance(o, ast.Call) and call_name(o) == "struct.pack":
-                wseq.append("U32=" + src(o.args[1]))
-            elif isinstance(o, ast.Constant):
-                wseq.append("MAGIC")
-            else:
-                wseq.append("?" + src(o)[:20])
-        rseq = ["MAGIC"]
-        def top_level(c):
-            n = c
-            while not isinstance(n, ast.stmt):
-                n = n._parent
-            return n._parent is rv
-        for c in [c for c in _ordered_calls(rv, ("getNS", "struct.unpack")) if top_level(c)]:
-            if call_attr(c) == "getNS" and src(c.args[0]).startswith(("keyList", "rest")):
-                rseq += ["NS"] * (_c(c.args[1]) if len(c.args) > 1 else 1)
-            elif call_name(c) == "struct.unpack" and src(c.args[1]).startswith("rest"):
-                rseq.append("U32=1")
-        ctx.check(wseq == rseq, "container/v1-field-order", qw + " ~ _fromPrivateOpenSSH_v1", f"writer lays out {wseq}, reader consumes {rseq}")
-        nkeys = [t for t in ast.walk(rv) if isinstance(t, ast.Compare) and src(t.left) == "n" and isinstance(t.ops[0], ast.NotEq)]
-        ctx.check(bool(nkeys) and _c(nkeys[0].comparators[0]) == 1, "container/v1-field-order", qr + " | key count", "reader does not insist on exactly the one key the writer stores")
-    with ctx.section('v1/check-words'):
-        ctx.need(_ok_v1, 'anchors of v1 (section skipped)')
-        pk = [st for st in wv.body if isinstance(st, ast.Assign) and src(st.targets[0]) == "privKeyList"]
-        ctx.need(pk, "_toPrivateOpenSSH_v1: privKeyList = ...")
-        ops = flatten_add(pk[0].value)
-        chk = [c for c in consts_assigned(wv, "check")]
-        chk_call = [st.value for st in wv.body if isinstance(st, ast.Assign) and src(st.targets[0]) == "check"]
-        n_chk = _c(chk_call[0].args[0]) if chk_call and isinstance(chk_call[0], ast.Call) and chk_call[0].args else None
-        okw = len(ops) == 4 and src(ops[0]) == "check" and src(ops[1]) == "check" and src(ops[2]) == "self.privateBlob()" and isinstance(ops[3], ast.Call) and call_attr(ops[3]) == "NS"
-        ctx.check(okw and n_chk == 4, "container/v1-check-words", ctx.construct(qw, pk[0]), "the decrypted list is not check || check || privateBlob || NS(comment) with a 4-byte check word")
-        rsl = sorted((src(c.args[1]) for c in ast.walk(rv) if isinstance(c, ast.Call) and call_name(c) == "struct.unpack" and src(c.args[1]).startswith("privKeyList")))
-        fin = [c for c in ast.walk(rv) if isinstance(c, ast.Call) and call_attr(c) == "_fromString_PRIVATE_BLOB"]
-        cmpc = [t for t in ast.walk(rv) if isinstance(t, ast.Compare) and {src(t.left), src(t.comparators[0])} == {"check1", "check2"} and isinstance(t.ops[0], ast.NotEq)]
-        ctx.check(rsl == ["privKeyList[4:8]", "privKeyList[:4]"] and len(fin) == 1 and src(fin[0].args[0]) == "privKeyList[8:]" and bool(cmpc), "container/v1-check-words", qr,
-                  "reader does not compare the two 4-byte check words and parse the private blob from offset 8")
-    with ctx.section('pem-kinds'):
-        ctx.need(_ok_ky, 'anchors of pem-kinds (section skipped)')
-        pem_r = ctx.func(KY, "Key._fromPrivateOpenSSH_PEM")
-        kinds = set()
-        for t in ast.walk(pem_r):
-            if isinstance(t, ast.Compare) and src(t.left) == "kind" and isinstance(t.ops[0], ast.In):
-                kinds |= set(_c(t.comparators[0]) or ())
-        pem_w = ctx.func(KY, "Key._toPrivateOpenSSH_PEM")
-        excl = {_c(t.comparators[0]) for t in ast.walk(pem_w) if isinstance(t, ast.Compare) and src(t.left) == "self.type()" and isinstance(t.ops[0], ast.NotEq)}
-        writes = {t.encode() for t in WIRE if t not in excl}
-        ctx.check(writes <= kinds, "container/pem-kinds", QK + "_toPrivateOpenSSH_PEM ~ _fromPrivateOpenSSH_PEM",
-                  f"PEM is written for key classes {sorted(writes)} but only {sorted(kinds)} are read back")
-
-        _ok_pem = True
-    with ctx.section('dispatch/names'):
-        ctx.need(_ok_ky, 'anchors of dispatch (section skipped)')
-        gf = ctx.func(KY, "Key._guessStringType")
-        names = {r.value.value for r in ast.walk(gf) if isinstance(r, ast.Return) and isinstance(r.value, ast.Constant) and isinstance(r.value.value, str)}
-        ctx.floor("dispatch/guess-names", len(names), 5)
-        for n in sorted(names):
-            ctx.check(f"_fromString_{n.upper()}" in km, "dispatch/guess-names", f"{QK}_guessStringType | {n!r}", f"_guessStringType returns {n!r} but Key has no _fromString_{n.upper()}")
-        tos = sorted(n[len("_toString_"):] for n in km if n.startswith("_toString_"))
-        parsers = {"OPENSSH": ["_fromString_PUBLIC_OPENSSH", "_fromString_PRIVATE_OPENSSH"], "LSH": ["_fromString_PUBLIC_LSH", "_fromString_PRIVATE_LSH"], "AGENTV3": ["_fromString_AGENTV3"]}
-        for t in tos:
-            ctx.check(t in parsers and all(p in km for p in parsers[t]), "dispatch/format-has-parser", f"{QK}_toString_{t}", f"format {t} can be written but has no parser(s) {parsers.get(t)}")
-        ctx.floor("dispatch/format-has-parser", len(tos), 3)
-        n_calls = 0
-        for name, fn in km.items():
-            for c in ast.walk(fn):
-                if isinstance(c, ast.Call) and isinstance(c.func, ast.Attribute) and isinstance(c.func.value, ast.Name) and c.func.value.id in ("self", "cls") \
-                        and (c.func.attr.startswith("_from") or c.func.attr.startswith("_to")):
-                    n_calls += 1
-                    ctx.check(c.func.attr in km, "dispatch/helper-exists", f"{QK}{name} | {c.func.attr}", f"{name} calls {c.func.attr} which Key does not define")
-        ctx.floor("dispatch/helper-exists", n_calls, 15)
-        _ok_gs = True
-    with ctx.section('dispatch/guess-tags'):
-        ctx.need(_ok_gs, 'anchors of dispatch (section skipped)')
-        tags = [w for t, w in WIRE.items() if t != "EC"] + curve_keys
-        for tag in tags:
-            ctx.check(guess(gf, tag + b" AAAAB3Nza comment") == "public_openssh", "dispatch/guess-recognises-written", f"{QK}_guessStringType | {tag!r} text",
-                      f"a public OpenSSH line starting with {tag!r} is classified as {guess(gf, tag + b' AAAA')!r}")
-            blobhead = struct.pack(">L", len(tag)) + tag + b"\0\0\0\1\1"
-            ctx.check(guess(gf, blobhead) == "agentv3|blob", "dispatch/guess-recognises-written", f"{QK}_guessStringType | {tag!r} blob",
-                      f"a binary blob starting with NS({tag!r}) is classified as {guess(gf, blobhead)!r}")
-    with ctx.section('dispatch/guess-armour'):
-        ctx.need(_ok_gs, 'anchors of dispatch (section skipped)')
-        ctx.need(_ok_v1 and _ok_pem, "v1 / PEM anchors (section skipped)")
-        armour = [c.value for c in ast.walk(wv) if isinstance(c, ast.Constant) and isinstance(c.value, bytes) and c.value.startswith(b"-----BEGIN")]
-        ctx.need(armour, "v1 BEGIN line")
-        ctx.check(guess(gf, armour[0] + b"\nAAAA\n") == "private_openssh", "dispatch/guess-recognises-written", f"{QK}_guessStringType | v1 armour", "the v1 armour line is not classified private_openssh")
-        po = ctx.func(KY, "Key._fromString_PRIVATE_OPENSSH")
-        disc = [t for t in ast.walk(po) if isinstance(t, ast.Compare) and isinstance(t.ops[0], ast.Eq) and isinstance(t.left, ast.Subscript) and isinstance(t.comparators[0], ast.Constant)]
-        okd = False
-        if disc and _slice(disc[0].left):
-            lo, hi = _c(_slice(disc[0].left)[1]), _c(_slice(disc[0].left)[2])
-            okd = armour[0][lo:hi] == disc[0].comparators[0].value
-            kl = [st.value for st in ast.walk(pem_r) if isinstance(st, ast.Assign) and src(st.targets[0]) == "kind"]
-            okd = okd and bool(kl) and _slice(kl[0]) is not None and (_c(_slice(kl[0])[1]), _c(_slice(kl[0])[2])) == (lo, hi) \
-                and all((b"-----BEGIN " + k + b" PRIVATE KEY-----")[lo:hi] == k for k in kinds)
-        ctx.check(okd, "dispatch/guess-recognises-written", QK + "_fromString_PRIVATE_OPENSSH | v1 vs PEM",
-                  "the armour-line slice that tells v1 from PEM (and names the PEM kind) does not extract 'OPENSSH' / the kind from '-----BEGIN <kind> PRIVATE KEY-----'")
-    with ctx.section('dispatch/guess-lsh'):
-        ctx.need(_ok_gs, 'anchors of dispatch (section skipped)')
-        lshw = ctx.func(KY, "Key._toString_LSH")
-        br = [c.value for r in ast.walk(lshw) if isinstance(r, ast.Return) and r.value is not None for c in flatten_add(r.value)[:1] if isinstance(c, ast.Constant)]
-        ctx.check(bool(br) and guess(gf, br[0] + b"KDEwOnB1YmxpYy1rZXk=}") == "public_lsh", "dispatch/guess-recognises-written", f"{QK}_guessStringType | LSH public", "a public LSH key ({...}) is not classified public_lsh")
-        ctx.check(guess(gf, b"(11:private-key(3:dsa") == "private_lsh", "dispatch/guess-recognises-written", f"{QK}_guessStringType | LSH private", "a private LSH s-expression is not classified private_lsh")
-
+    with ctx.section('primitives/evaluated'):
+        _primitives(ctx)
+    with ctx.section('model/key-round-trips'):
+        _key_roundtrips(ctx)
     with ctx.section('keys/fixed-width'):
         _fixed_width(ctx)
     with ctx.section('provenance/binary-input'):
         _provenance(ctx)
+
+# ---- primitives: the four functions are evaluated (whitelisted interpreter) against RFC 4251 references -------------
+
+def _ref_NS(x):
+    b = x.encode("utf-8") if isinstance(x, str) else x
+    return struct.pack(">L", len(b)) + b
+
+
+def _ref_MP(n):
+    if n == 0:
+        return b"\0\0\0\0"
+    b = n.to_bytes((n.bit_length() + 7) // 8, "big")
+    if b[0] & 0x80:
+        b = b"\0" + b
+    return struct.pack(">L", len(b)) + b
+
+
+def _primitives(ctx):
+    cm = ctx.mod(CM)
+    for n_ in ("NS", "getNS", "MP", "getMP"):
+        ctx.func(CM, n_)
+
+    from sa.props._lib_d import VMError
+    from sa.props._lib_h import xvm
+    vm = xvm(cm)
+    vm.mod._g["int_to_bytes"] = lambda n, length=None: n.to_bytes(length or ((n.bit_length() + 7) // 8 or 1), "big")   # cryptography.utils contract
+
+    def run(name, *args):
+        try:
+            return vm.call(vm.mod.globals_lookup(name), list(args), {})
+        except VMError as e:
+            raise AnalysisError(f"C37: {name}: construct outside the interpreter's subset: {e}")
+        except Exception as e:
+            return f"<raises {type(e).__name__}: {e}>"
+    strings = [b"", b"a", b"\x00", b"ssh-rsa", b"x" * 300, bytes(range(256))]
+    texts = ["", "abc", "héllo €"]
+    bad = [(x, run("NS", x)) for x in strings + texts if run("NS", x) != _ref_NS(x)]
+    ctx.check(not bad, "primitive/NS", QC + "NS", f"NS({bad[0][0] if bad else ''!r}) = {bad[0][1] if bad else ''!r}; RFC 4251 string is {_ref_NS(bad[0][0]) if bad else b''!r} "
+              "(uint32 length of exactly the bytes that follow)", detail=f"{len(strings) + len(texts)} inputs")
+    nums = [0, 1, 0x7F, 0x80, 0xFF, 0x100, 0x7FFF, 0x8000, 0xFFFF, 2 ** 31 - 1, 2 ** 31, 2 ** 32, 2 ** 63, 2 ** 64 - 1, 2 ** 255 - 19, 2 ** 256, 2 ** 521 - 1, 2 ** 1024 + 12345,
+            2 ** 4096 - 1, 0x80 << 64, 0x7F << 64]
+    bad = [(x, run("MP", x)) for x in nums if run("MP", x) != _ref_MP(x)]
+    ctx.check(not bad, "primitive/MP", QC + "MP", f"MP({bad[0][0] if bad else 0}) = {bad[0][1] if bad else b''!r}; RFC 4251 mpint is {_ref_MP(bad[0][0])[:12] if bad else b''!r}... "
+              "(minimal big-endian, one leading zero byte iff the top bit is set, zero = empty)", detail=f"{len(nums)} numbers")
+    # readers on reference-encoded streams
+    badr = None
+    seqs = [[b""], [b"a"], [b"ssh-rsa", b"", b"\x00\x01"], [b"x" * 300, b"yz"], [bytes(range(256)), b"q"]]
+    for sq in seqs:
+        for rest in (b"", b"tail", b"\x00\x00\x00\x01z"):
+            stream = b"".join(_ref_NS(x) for x in sq) + rest
+            for count in sorted({1, len(sq)}):
+                got = run("getNS", stream, count)
+                want = tuple(sq[:count]) + (b"".join(_ref_NS(x) for x in sq[count:]) + rest,)
+                if got != want and badr is None:
+                    badr = (stream[:24], count, got, want)
+    one = run("getNS", _ref_NS(b"only") + b"r")
+    if one != (b"only", b"r") and badr is None:
+        badr = (_ref_NS(b"only") + b"r", "default", one, (b"only", b"r"))
+    ctx.check(badr is None, "primitive/getNS", QC + "getNS", f"getNS({badr[0] if badr else b''!r}..., {badr[1] if badr else 1}) = {str(badr[2])[:80] if badr else ''}; expected {str(badr[3])[:80] if badr else ''} "
+              "(values in order followed by the unread rest)")
+    badm = None
+    for k in (1, 2, 5):
+        for start in range(0, len(nums) - k + 1, 3):
+            sq = nums[start:start + k]
+            for rest in (b"", b"\x00\x00\x00\x01\x05"):
+                stream = b"".join(_ref_MP(x) for x in sq) + rest
+                got = run("getMP", stream, k)
+                if got != tuple(sq) + (rest,) and badm is None:
+                    badm = (sq, got)
+    ctx.check(badm is None, "primitive/getMP", QC + "getMP", f"getMP of the mpints {[hex(x)[:20] for x in badm[0]] if badm else []} gives {str(badm[1])[:100] if badm else ''}")
+    # writer -> reader composition on the code's own encodings
+    comp = [x for x in nums if not isinstance(run("MP", x), str) and run("getMP", run("MP", x) + b"r") != (x, b"r")]
+    ctx.check(not comp, "primitive/round-trip", QC + "MP ~ getMP", f"getMP(MP(n)) != n for n = {[hex(x)[:20] for x in comp[:3]]}")
+    comp = [x for x in strings if not isinstance(run("NS", x), str) and run("getNS", run("NS", x) + b"r") != (x, b"r")]
+    ctx.check(not comp, "primitive/round-trip", QC + "NS ~ getNS", f"getNS(NS(s)) != s for s = {comp[:2]!r}")
+
+
+# ---- key round trips: the source of Key is evaluated (XVM) with stand-ins for the cryptography objects -----------------
+
+SEXPY = "conch/ssh/sexpy.py"
+
+
+def _key_pool():
+    """(label, key type, stand-in private key object); numbers chosen to hit sign padding, leading zero bytes and
+    encodings whose last byte is an ASCII whitespace value"""
+    from sa.props import _lib_h_keys as K
+    import hashlib
+    pool = []
+    e = 65537
+    for label, p, q in (("rsa-a", 2 ** 89 - 1, 2 ** 127 - 1), ("rsa-b", 2 ** 107 - 1, 2 ** 127 - 1)):
+        d = pow(e, -1, (p - 1) * (q - 1))
+        pool.append((label, "RSA", K.RSAPrivateKey(K.RSAPrivateNumbers(p, q, d, d % (p - 1), d % (q - 1), pow(q, -1, p), K.RSAPublicNumbers(e, p * q)))))
+    # DSA: the stand-ins do not validate group arithmetic; y ends in 0x0a, x in 0x20 (binary encodings ending in whitespace)
+    dp = (1 << 1023) | int.from_bytes(hashlib.sha512(b"dsa-p").digest() * 2, "big") | 1
+    dq = (1 << 159) | int.from_bytes(hashlib.sha1(b"dsa-q").digest(), "big") | 1
+    dg = int.from_bytes(hashlib.sha512(b"dsa-g").digest(), "big")
+    for label, y, x in (("dsa-a", (int.from_bytes(hashlib.sha512(b"dsa-y").digest(), "big") << 8) | 0x0A, (0x7F << 152) | 0x20),
+                        ("dsa-b", (0xF1 << 1016) | 0x41, 0xC3 << 152 | 0x09)):
+        pool.append((label, "DSA", K.DSAPrivateKey(K.DSAPrivateNumbers(x, K.DSAPublicNumbers(y, K.DSAParameterNumbers(dp, dq, dg))))))
+    for curve, labels in ((K.SECP256R1, ("small", "large")), (K.SECP384R1, ("large",)), (K.SECP521R1, ("small",))):
+        for label in labels:
+            priv = 5 if label == "small" else int.from_bytes(hashlib.sha256(b"ec" + curve.name.encode()).digest(), "big")
+            pool.append((f"ec-{curve.key_size}-{label}", "EC", K.derive_private_key(priv, curve())))
+    seeds = []
+    i = 0
+    while len(seeds) < 2:       # one public key ending in an ASCII whitespace byte, one not
+        seed = hashlib.sha256(b"ed-seed%d" % i).digest()
+        last = K.ed_public_of(seed)[-1]
+        if (len(seeds) == 0 and last in (0x20, 0x09, 0x0A, 0x0B, 0x0C, 0x0D)) or (len(seeds) == 1 and last > 0x20):
+            seeds.append(seed)
+        i += 1
+    for n, seed in enumerate(seeds):
+        pool.append((f"ed25519-{n}", "Ed25519", K.Ed25519PrivateKey(seed)))
+    return pool
+
+
+def _key_roundtrips(ctx):
+    from sa.props import _lib_h_keys as K
+    from sa.props._lib_d import VMError
+    from sa.props._lib_h import xvm
+    mod = ctx.mod(KY)
+    vm = K.install(xvm(mod, budget=2 * 10 ** 8))
+    vm.mod._g["common"] = vm.module(ctx.mod(CM))
+    vm.mod._g["common"]._g["int_to_bytes"] = vm.mod._g["int_to_bytes"]
+    vm.mod._g["sexpy"] = vm.module(ctx.mod(SEXPY))
+    KeyC = vm.cls("Key")
+
+    class Failed(Exception):
+        pass
+
+    def cm(o, name, *a, **kw):
+        try:
+            return vm.call(vm.getattr(o, name), list(a), kw)
+        except VMError as e:
+            raise AnalysisError(f"C37: Key.{name}: construct outside the interpreter's subset: {e}")
+        except AnalysisError:
+            raise
+        except Exception as e:
+            raise Failed(f"{name} raises {type(e).__name__}: {str(e)[:120]}")
+
+    def facts(k):
+        return (cm(k, "type"), bool(cm(k, "isPublic")), cm(k, "data"), cm(cm(k, "public"), "blob"))
+
+    n_trips = 0
+    for label, ktype, privobj in _key_pool():
+        priv = vm.new(KeyC, privobj)
+        pub = cm(priv, "public")
+        routes = []
+        # public side
+        routes += [("public blob (format guessed)", pub, lambda k: cm(k, "blob"), {}, {}),
+                   ("public blob (type 'blob')", pub, lambda k: cm(k, "blob"), {"type": "blob"}, {}),
+                   ("public OpenSSH line", pub, lambda k: cm(k, "toString", "openssh"), {}, {}),
+                   ("public OpenSSH line with comment", pub, lambda k: cm(k, "toString", "openssh", comment=b"user@host"), {}, {})]
+        if ktype in ("RSA", "DSA"):
+            routes += [("public LSH", pub, lambda k: cm(k, "toString", "lsh"), {}, {}),
+                       ("private LSH", priv, lambda k: cm(k, "toString", "lsh"), {}, {}),
+                       ("agent v3", priv, lambda k: cm(k, "toString", "agentv3"), {}, {})]
+        routes += [("private blob", priv, lambda k: cm(k, "privateBlob"), {"type": "private_blob"}, {}),
+                   ("private OpenSSH (default subtype)", priv, lambda k: cm(k, "toString", "openssh"), {}, {}),
+                   ("private OpenSSH v1", priv, lambda k: cm(k, "toString", "openssh", subtype="v1"), {}, {}),
+                   ("private OpenSSH v1 with comment", priv, lambda k: cm(k, "toString", "openssh", subtype="v1", comment=b"me"), {}, {}),
+                   ("private OpenSSH v1 with passphrase", priv, lambda k: cm(k, "toString", "openssh", subtype="v1", passphrase=b"secret"), {"passphrase": b"secret"}, {}),
+                   ("private OpenSSH v1 with str passphrase", priv, lambda k: cm(k, "toString", "openssh", subtype="v1", passphrase="sécret"), {"passphrase": "sécret"}, {})]
+        if ktype != "Ed25519":
+            routes += [("private OpenSSH PEM", priv, lambda k: cm(k, "toString", "openssh", subtype="PEM"), {}, {}),
+                       ("private OpenSSH PEM with passphrase", priv, lambda k: cm(k, "toString", "openssh", subtype="PEM", passphrase=b"secret"), {"passphrase": b"secret"}, {})]
+        for route, key, ser, parse_kw, _ in routes:
+            n_trips += 1
+            construct = f"{QK[:-1]} | {ktype} {'public' if key is pub else 'private'} key via {route}"
+            try:
+                want = facts(key)
+                text = ser(key)
+                if not isinstance(text, bytes) or not text:
+                    raise Failed(f"serialises to {text!r}")
+                back = cm(KeyC, "fromString", text, parse_kw.get("type"), parse_kw.get("passphrase"))
+                got = facts(back)
+                if got != want:
+                    diff = "type" if got[0] != want[0] else "public/private" if got[1] != want[1] else \
+                        "components " + ", ".join(sorted(k_ for k_ in set(got[2]) | set(want[2]) if got[2].get(k_) != want[2].get(k_))) if got[2] != want[2] else "public blob (fingerprint)"
+                    raise Failed(f"parses back to a different key ({diff} differ)")
+                problem = None
+            except Failed as e:
+                problem = str(e)
+            ctx.check(problem is None, "roundtrip/" + ("binary" if "blob" in route or "agent" in route else "lsh" if "LSH" in route else "openssh"), construct,
+                      f"key {label}: {problem}")
+    ctx.floor("roundtrip/openssh", n_trips, 100, "round trips")
+    ctx.extra["key_round_trips"] = n_trips
+
 
 # ---- fixed-width fields ------------------------------------------------------------------------------------
 
@@ -641,23 +383,6 @@ def _conv_kind(e, al):
     return ("opaque",)
 
 
-def _width_for_key_size(width_text):
-    """evaluate a width expression over the key sizes of the supported curves; None when not evaluable"""
-    tree = ast.parse(width_text, mode="eval").body
-
-    class R(ast.NodeTransformer):
-        def visit_Attribute(self, node):
-            if node.attr == "key_size":
-                return ast.Name(id="KS", ctx=ast.Load())
-            return self.generic_visit(node)
-    tree = ast.fix_missing_locations(R().visit(tree))
-    out = {}
-    for ks in (256, 384, 521):
-        v = _c(tree, {"KS": ks})
-        if not isinstance(v, int):
-            return None
-        out[ks] = v
-    return out
 
 
 def _fixed_width(ctx):
@@ -670,7 +395,7 @@ def _fixed_width(ctx):
         al = local_aliases(fn, allow=pure_expr)
         for c in ast.walk(fn):
             if isinstance(c, ast.Call) and call_attr(c) == "NS" and len(c.args) == 1:
-                ops = flatten_add(c.args[0])
+                ops = _concat_operands(fn, c.args[0])
                 if len(ops) < 2:
                     continue
                 n_cat += 1
@@ -680,39 +405,6 @@ def _fixed_width(ctx):
                           f"a variable-length integer encoding ({bad}) is concatenated without its own length prefix: values with leading zero bytes give a "
                           "shorter string, the reader cannot find the field boundaries (fromString(toString()) fails / fingerprint differs)")
     ctx.floor("keys/fixed-width-fields", n_cat, 2, "concatenated NS payloads")
-    # (2) the EC public point: 0x04 || X || Y with both coordinates padded to the field width; the reader hands the string to
-    #     from_encoded_point, which requires exactly 1 + 2 * ceil(key_size / 8) bytes
-    wb = type_branches(km["blob"], "writer")
-    rb = type_branches(km["_fromString_BLOB"], "reader")
-    ctx.need("EC" in wb and "<curve>" in rb, "EC branches of blob / _fromString_BLOB")
-    reader_fixed = any(isinstance(c, ast.Call) and call_attr(c) in ("from_encoded_point", "_fromECEncodedPoint") for st in rb["<curve>"] for c in ast.walk(st))
-    ctx.check(reader_fixed, "keys/fixed-width-fields", QK + "_fromString_BLOB | EC point consumer",
-              "the reader no longer hands the point to a SEC1 decoder (fixed 1 + 2*width bytes): writer/reader width kinds must be re-established")
-    al = local_aliases(km["blob"], allow=pure_expr)
-    pts = []
-    for st in wb["EC"]:
-        for c in ast.walk(st):
-            if isinstance(c, ast.Call) and call_attr(c) == "NS" and len(c.args) == 1 and len(flatten_add(c.args[0])) >= 2:
-                pts.append(c)
-    if ctx.check(len(pts) == 1, "keys/fixed-width-fields", QK + "blob | EC point", f"the EC branch of blob() has {len(pts)} concatenated point strings (one expected)"):
-        ops = flatten_add(pts[0].args[0])
-        kinds = [_conv_kind(o, al) for o in ops]
-        shape = len(ops) == 3 and kinds[0] == ("const", 1) and _c(ops[0]) == b"\x04" and kinds[1][0] == "fixed" and kinds[2][0] == "fixed"
-        ctx.check(shape, "keys/fixed-width-fields", QK + "blob | EC point layout",
-                  f"the EC point is not 0x04 || X || Y with X and Y converted at a fixed width (operand kinds: {kinds}); the reader (from_encoded_point) requires "
-                  "1 + 2*ceil(key_size/8) bytes, so a coordinate with a leading zero byte makes the blob unparseable")
-        if shape:
-            ctx.check(kinds[1][1] == kinds[2][1], "keys/fixed-width-fields", QK + "blob | EC point widths agree", f"X is {kinds[1][1]} bytes wide but Y is {kinds[2][1]}")
-            ws = _width_for_key_size(kinds[1][1])
-            ctx.check(ws == {256: 32, 384: 48, 521: 66}, "keys/fixed-width-fields", QK + "blob | EC coordinate width",
-                      f"coordinate width {kinds[1][1]} evaluates to {ws} for key sizes 256/384/521; SEC1 requires 32/48/66 bytes")
-            names = [src(o.args[0]) if isinstance(o, ast.Call) and o.args and call_attr(o) == "int_to_bytes" else src(o.func.value) if isinstance(o, ast.Call) and isinstance(o.func, ast.Attribute) else "?"
-                     for o in ops[1:]]
-            ctx.check(names == ["data['x']", "data['y']"], "keys/field-order", QK + "blob | EC point X then Y", f"the point is built from {names}, expected x then y")
-    # (3) Ed25519: the private scalar is the first 32 bytes of k||a on the reader side and data()['k'] is the raw 32-byte seed on the writer side
-    data_f = km["data"]
-    raw = [c for c in ast.walk(data_f) if isinstance(c, ast.Call) and call_attr(c) in ("private_bytes", "public_bytes") and "Raw" in src(c)]
-    ctx.check(len(raw) >= 3, "keys/fixed-width-fields", QK + "data | Ed25519 raw encodings", "Ed25519 components are no longer taken as the fixed-size Raw encodings (32 bytes)")
 
 
 # ---- provenance: the byte string handed to a binary parser is the caller's byte string ---------------------
@@ -778,7 +470,7 @@ def _provenance(ctx):
     q = QK + "fromString"
     dp, tp = f.args.args[1].arg, f.args.args[2].arg
     mvars = {t.id for st in statements(f) if isinstance(st, ast.Assign) and isinstance(st.value, ast.Call) and dotted(st.value.func) == "getattr"
-             and any("_fromString_" in src(a) for a in st.value.args) for t in st.targets if isinstance(t, ast.Name)}
+             and any("_fromString_" in src(_single_def(f, a)) for a in st.value.args) for t in st.targets if isinstance(t, ast.Name)}
     ctx.need(mvars, "fromString: method = getattr(cls, f'_fromString_{type.upper()}')")
     disp = g.find(lambda x: isinstance(x, ast.Call) and isinstance(x.func, ast.Name) and x.func.id in mvars)
     ctx.need(disp, "fromString: method(data ...) dispatch")
@@ -871,7 +563,7 @@ MUTANTS = [
            "                    + data[\"x\"].to_bytes((data[\"x\"].bit_length() + 7) // 8, \"big\")\n                    + data[\"y\"].to_bytes((data[\"y\"].bit_length() + 7) // 8, \"big\")\n",
            expect_rule="keys/fixed-width-fields"),
     Mutant("ec-point-y-width-dropped", KY, "                    + utils.int_to_bytes(data[\"y\"], byteLength)\n", "                    + utils.int_to_bytes(data[\"y\"])\n", expect_rule="keys/fixed-width-fields"),
-    Mutant("ec-width-floor-instead-of-ceil", KY, "            byteLength = (self._keyObject.curve.key_size + 7) // 8\n", "            byteLength = self._keyObject.curve.key_size // 8\n", expect_rule="keys/fixed-width-fields"),
+    Mutant("ec-width-floor-instead-of-ceil", KY, "            byteLength = (self._keyObject.curve.key_size + 7) // 8\n", "            byteLength = self._keyObject.curve.key_size // 8\n", expect_rule="roundtrip/binary"),
     Mutant("dispatch-trims-trailing-whitespace", KY, "            if passphrase:\n                raise BadKeyError(\"key not encrypted\")\n            return method(data)\n",
            "            if passphrase:\n                raise BadKeyError(\"key not encrypted\")\n            return method(data.rstrip())\n", expect_rule="input/binary-formats-unmodified"),
     Mutant("hoisted-strip-for-all-formats", KY, "        passphrase = _normalizePassphrase(passphrase)\n        if type is None:\n            type = cls._guessStringType(data)\n",
@@ -879,26 +571,26 @@ MUTANTS = [
            expect_rule="input/binary-formats-unmodified"),
     Mutant("blob-parser-tolerates-trailing-newline", KY, "        keyType, rest = common.getNS(blob)\n        if keyType == b\"ssh-rsa\":\n            e, n, rest = common.getMP(rest, 2)",
            "        blob = blob.rstrip(b\"\\n\")\n        keyType, rest = common.getNS(blob)\n        if keyType == b\"ssh-rsa\":\n            e, n, rest = common.getMP(rest, 2)", expect_rule="input/binary-formats-unmodified"),
-    Mutant("getNS-cursor-skips-prefix-only", CM, "        ns.append(s[c + 4 : 4 + l + c])\n        c += 4 + l\n", "        ns.append(s[c + 4 : 4 + l + c])\n        c += l\n", expect_rule="primitive/offsets"),
-    Mutant("mp-sign-test-wrong-mask", CM, "    if ord(bn[0:1]) & 128:", "    if ord(bn[0:1]) > 128:", expect_rule="primitive/mp-sign-padding"),
+    Mutant("getNS-cursor-skips-prefix-only", CM, "        ns.append(s[c + 4 : 4 + l + c])\n        c += 4 + l\n", "        ns.append(s[c + 4 : 4 + l + c])\n        c += l\n", expect_rule="primitive/getNS"),
+    Mutant("mp-sign-test-wrong-mask", CM, "    if ord(bn[0:1]) & 128:", "    if ord(bn[0:1]) > 128:", expect_rule="primitive/MP"),
     Mutant("ns-length-before-encoding", CM, "    if isinstance(t, str):\n        t = t.encode(\"utf-8\")\n    return struct.pack(\"!L\", len(t)) + t",
-           "    n = len(t)\n    if isinstance(t, str):\n        t = t.encode(\"utf-8\")\n    return struct.pack(\"!L\", n) + t", expect_rule="primitive/length-of-what-is-appended"),
+           "    n = len(t)\n    if isinstance(t, str):\n        t = t.encode(\"utf-8\")\n    return struct.pack(\"!L\", n) + t", expect_rule="primitive/NS"),
     Mutant("getMP-little-endian", CM, "        mp.append(int.from_bytes(data[c + 4 : c + 4 + length], \"big\"))", "        mp.append(int.from_bytes(data[c + 4 : c + 4 + length], \"little\"))",
-           expect_rule="primitive/mp-unsigned-big-endian"),
+           expect_rule="primitive/getMP"),
     Mutant("private-blob-drops-ed25519", KY, "        elif type == \"Ed25519\":\n            return (\n                common.NS(b\"ssh-ed25519\")\n                + common.NS(data[\"a\"])\n                + common.NS(data[\"k\"] + data[\"a\"])\n            )\n        else:",
-           "        elif type == \"Ed25519\":\n            return (\n                common.NS(b\"ssh-ed25519\")\n                + common.NS(data[\"k\"] + data[\"a\"])\n            )\n        else:", expect_rule="keys/field-schema"),
+           "        elif type == \"Ed25519\":\n            return (\n                common.NS(b\"ssh-ed25519\")\n                + common.NS(data[\"k\"] + data[\"a\"])\n            )\n        else:", expect_rule="roundtrip/"),
     Mutant("reader-loses-dsa-branch", KY, "        elif keyType == b\"ssh-dss\":\n            p, q, g, y, x, rest = common.getMP(rest, 5)\n            return cls._fromDSAComponents(y=y, g=g, p=p, q=q, x=x)\n", "",
-           expect_rule="keys/every-written-type-is-readable"),
-    Mutant("rsa-blob-components-swapped", KY, "            e, n, rest = common.getMP(rest, 2)", "            n, e, rest = common.getMP(rest, 2)", expect_rule="keys/field-order"),
+           expect_rule="roundtrip/"),
+    Mutant("rsa-blob-components-swapped", KY, "            e, n, rest = common.getMP(rest, 2)", "            n, e, rest = common.getMP(rest, 2)", expect_rule="roundtrip/"),
     Mutant("agent-rsa-order", KY, "                    data[\"e\"],\n                    data[\"d\"],\n                    data[\"n\"],\n", "                    data[\"e\"],\n                    data[\"n\"],\n                    data[\"d\"],\n",
-           expect_rule="keys/field-order"),
-    Mutant("lsh-private-type-renamed", KY, "        elif sexp[1][0] == b\"rsa-pkcs1\":", "        elif sexp[1][0] == b\"rsa-pkcs1-sha1\":", expect_rule="keys/every-written-type-is-readable"),
-    Mutant("v1-cipher-not-accepted", KY, "            cipherName = b\"aes256-ctr\"", "            cipherName = b\"aes256-cbc\"", expect_rule="container/v1-cipher"),
-    Mutant("v1-check-offset", KY, "        return cls._fromString_PRIVATE_BLOB(privKeyList[8:])", "        return cls._fromString_PRIVATE_BLOB(privKeyList[4:])", expect_rule="container/v1-check-words"),
-    Mutant("guess-misses-ed25519-blob", KY, "            or data.startswith(b\"\\x00\\x00\\x00\\x0bssh-ed25519\")\n", "", expect_rule="dispatch/guess-recognises-written"),
-    Mutant("curve-table-name", KY, "    b\"secp384r1\": b\"nistp384\",", "    b\"secp384r1\": b\"nistp-384\",", expect_rule="keys/type-tags"),
+           expect_rule="roundtrip/binary"),
+    Mutant("lsh-private-type-renamed", KY, "        elif sexp[1][0] == b\"rsa-pkcs1\":", "        elif sexp[1][0] == b\"rsa-pkcs1-sha1\":", expect_rule="roundtrip/lsh"),
+    Mutant("v1-cipher-not-accepted", KY, "            cipherName = b\"aes256-ctr\"", "            cipherName = b\"aes256-cbc\"", expect_rule="roundtrip/openssh"),
+    Mutant("v1-check-offset", KY, "        return cls._fromString_PRIVATE_BLOB(privKeyList[8:])", "        return cls._fromString_PRIVATE_BLOB(privKeyList[4:])", expect_rule="roundtrip/openssh"),
+    Mutant("guess-misses-ed25519-blob", KY, "            or data.startswith(b\"\\x00\\x00\\x00\\x0bssh-ed25519\")\n", "", expect_rule="roundtrip/binary"),
+    Mutant("curve-table-name", KY, "    b\"secp384r1\": b\"nistp384\",", "    b\"secp384r1\": b\"nistp-384\",", expect_rule="roundtrip/"),
     Mutant("blob-typo-component", KY, "            return common.NS(b\"ssh-rsa\") + common.MP(data[\"e\"]) + common.MP(data[\"n\"])", "            return common.NS(b\"ssh-rsa\") + common.MP(data[\"e\"]) + common.MP(data[\"N\"])",
-           expect_rule="keys/data-components"),
+           expect_rule="roundtrip/"),
 ]
 SILENT = [
     Silent("ec-point-to_bytes-fixed-width", KY, "                    + utils.int_to_bytes(data[\"x\"], byteLength)\n                    + utils.int_to_bytes(data[\"y\"], byteLength)\n",
